@@ -319,3 +319,27 @@ def r9(cx):
     cx.check("trailer" in reads or "seq_num" in calls, "...and breaks ties by the sequence number", "version-order-not-total", b.where(),
              "InternalKey::cmp_by_timestamp stops at the timestamp: two versions of a key with the same timestamp are equal keys for the version index (the second insert "
              "overwrites the first: history loses a retained version once the index holds them, and differs from the index-less back end) and for the history merge")
+
+
+@rule("C10", "C10.R10", "every source of a history merge is sorted by the merge's own order")
+def r10(cx):
+    """A k-way merge is correct only over inputs sorted by the comparator it merges with.  The history merge over the
+    version index uses the timestamp order (key, timestamp desc, seq desc); the B+tree is stored in that order, but a
+    memtable iterates in the write order of the skiplist (key, seq desc).  The two agree while timestamps grow with
+    commits; with the index enabled out-of-order timestamps are legal (back-filling), and then a memtable hands the merge
+    an unsorted run: versions come out oldest first, and the `below the window, so everything after it is too` shortcut
+    skips versions that lie inside a timestamp window -- until a flush moves them into the index.  Decided: a merge built
+    with the timestamp comparator takes no child that iterates a memtable directly."""
+    f = cx.f
+    b = f.body("KMergeIterator::new_for_history_with_btree")
+    ts_cmp = any("TimestampComparator" in (c.primary + str(c.callee.get("a"))) for c in b.calls if c.bb in b.live)
+    mem = [c for c in b.calls if c.bb in b.live and c.primary.split("::")[-1] in ("range", "iter") and "MemTable" in (c.primary + str(c.callee.get("a")) + str(c.callee.get("self")))]
+    cx.note("new_for_history_with_btree: timestamp comparator=%s, memtable children=%d" % (ts_cmp, len(mem)))
+    if not ts_cmp:
+        raise AnchorMissing("new_for_history_with_btree no longer builds a TimestampComparator")
+    for c in mem:
+        cx.check(False, "the index-backed history merge has no child in memtable order", "history-source-order-mismatch|%s" % ("loop" if b.in_cycle(c.bb) else "active"), c.where(),
+                 "the history merge over the version index (timestamp order) takes a memtable iterator (write order: key, seq desc) as a child: with out-of-order timestamps -- legal "
+                 "when the index is on -- the run is not sorted for the merge; `set k@200; set k@100` lists [100, 200] and a window (150, 250) lists nothing until a flush")
+    if not mem:
+        cx.ok("no memtable-order child in the index-backed history merge", b.where())
